@@ -52,6 +52,15 @@ def sweep_scenarios(quick, seed):
                     continue
                 out.append({"ttl": ttl, "jump": jump, "later": 3 * ttl + 5 * TICK, "op": op, "sized": k % 2, "syncexec": (k // 2) % 2, "warm": 0,
                             "max": 4 + k % 5})
+    # many entries due in the same sweep (more than the 2049 events one pass drains from the write buffer)
+    k = 0
+    for n in (2100, 3000, 5000):
+        for op in ("mass.set", "mass.nohandler"):
+            for sized in (0, 1):
+                k += 1
+                if quick and k % 3 != seed % 3:
+                    continue
+                out.append({"ttl": TICK, "jump": 10 * TICK, "later": 0, "op": op, "sized": sized, "syncexec": (k // 2) % 2, "warm": n, "max": 0})
     # a write that finds the entry expired, while a reader stores an extended deadline into the node being replaced
     k = 0
     for ttl in (3 * TICK, 10 * TICK):
@@ -263,6 +272,8 @@ def run(prop, tier, replay=None):
                     total = sc["jump"] + sc["later"]
                     r["mustsweep"] = 1 if (total - sc["ttl"] > TICK and sc["later"] > TICK) else 0
                     r["deadlinepassed"] = 1 if sc["ttl"] <= total else 0
+                    if sc["op"].startswith("mass."):
+                        r["mustsweep"], r["deadlinepassed"] = 0, 1
                     if sc["op"].startswith(("read.", "gate.", "sia.")):
                         # the extended deadline is at most (ttl - 1000) + ttl after the write; later = 3 ttl + 5 ticks lies beyond it
                         r["mustsweep"], r["deadlinepassed"] = 1, 1
